@@ -1,7 +1,9 @@
 ----------------------------- MODULE GenWriters -----------------------------
 (* Case generation for C19: style / region maps with heterogeneous attribute subsets (what makes a map-order
    dependence visible). A case = [styles: sequence of [attrs (subset of 1..4 as a sequence), css], regions: sequence
-   of attribute subsets, meta: BOOLEAN (STL dates supplied by the metadata or left to the clock)]. *)
+   of attribute subsets, meta: BOOLEAN (STL dates supplied by the metadata or left to the clock), keys: how the maps
+   are keyed - 0 = every entry under its own ID, 1 = under foreign keys, 2 = foreign keys and the first two styles
+   (regions) carry one and the same ID (Writers.tla: an id may occur under several keys)]. *)
 EXTENDS Integers, Sequences, FiniteSets, SequencesExt, Json, IOUtils, TLC
 Env(n, dflt) == IF n \in DOMAIN IOEnv THEN atoi(IOEnv[n]) ELSE dflt
 gN == Env("GEN_N", 2)
@@ -10,9 +12,10 @@ gPS == Env("GEN_PARTS", 1)
 gA == Env("GEN_A", 2)
 AttrSeqs == {SetToSortSeq(S, <) : S \in SUBSET (1..gA)}
 StyleSeqs(n) == [1..n -> [attrs : AttrSeqs, css : {<<>>, <<1>>, <<1, 2>>}]]
-Cases(z) == UNION {{[styles |-> st, regions |-> rg, meta |-> m] :
+KeyModes(n) == IF n = 0 THEN {0} ELSE IF n = 1 THEN {0, 1} ELSE {0, 1, 2}
+Cases(z) == UNION {{[styles |-> st, regions |-> rg, meta |-> m, keys |-> k] :
                       st \in {x \in StyleSeqs(n) : (Len(x) + (IF x = <<>> THEN 0 ELSE Len(x[1].attrs))) % gPS = gP},
-                      rg \in {<<>>, <<<<1>>, <<1, 2>>>>, <<<<>>, <<2>>, <<1, 2>>>>}, m \in BOOLEAN} : n \in 0..gN}
+                      rg \in {<<>>, <<<<1>>, <<1, 2>>>>, <<<<>>, <<2>>, <<1, 2>>>>}, m \in BOOLEAN, k \in KeyModes(n)} : n \in 0..gN}
 ASSUME LET cs == Cases(0) IN ndJsonSerialize(IOEnv.GEN_OUT, SetToSeq(cs)) /\ PrintT(<<"GENERATED", "writers", Cardinality(cs)>>)
 VARIABLE x
 Init == x = 0
